@@ -31,7 +31,7 @@ func init() { core.Register(check{}) }
 func (check) ID() string    { return "C16" }
 func (check) Level() string { return "exploration" }
 func (check) Rule() string {
-	return "truth table, exhaustive: programs = structs of 3 fields, each field in every combination of {default, required, optional} x {no default, literal default} (6^3 = 216) with the third field's type rotating over {bool, double, struct, i64, list<i32>, byte, i16} and the id layout over {1,2,3},{63,64,65},{255,256,257},{1,64,1000}; the whole 216-program table again (declared order, no unknown member) on each layout whose largest id is a bitmap-length edge: {1,2,63},{1,2,64},{1,64,128},{2,3,256},{64,128,320},{1,2,32767}; plus depth-2 programs (outer requiredness x inner 6^2); parse options 2^2 {SetOptionalBitmap, UseDefaultValue}; j2t: all 2^4 of {WriteRequireField, WriteDefaultField, WriteOptionalField, DisallowUnknownField} x every input in {absent, null, present}^3 x {no unknown member, unknown member}; t2j: same 2^4 x {absent, present}^3 x {no unknown, unknown} x 2 wire orders; cutting (generic.Value.MarshalTo between two independent parses of the program): all 2^3 of {WriteDefault, NotCheckRequireNess, DisallowUnknow} x {absent, present}^3 x unknown; environment deviations: DoInto capacities, dirty pooled bitmaps (all-ones, capacities 0..17) and dirty native bitmap cache. A case is one (side, program, parse options, options, input). Later additions: the whole table with literals equal to the zero value, unknown members with a null value, the JSON side through the portable converter (pipe server). Round 8: nested structs as elements of list / set / map / list<list>; an http twin of every t2j scenario. Round 10: required base field of a nested instance of a function's root struct (EnableThriftBase parse)."
+	return "truth table, exhaustive: programs = structs of 3 fields, each field in every combination of {default, required, optional} x {no default, literal default} (6^3 = 216) with the third field's type rotating over {bool, double, struct, i64, list<i32>, byte, i16} and the id layout over {1,2,3},{63,64,65},{255,256,257},{1,64,1000}; the whole 216-program table again (declared order, no unknown member) on each layout whose largest id is a bitmap-length edge: {1,2,63},{1,2,64},{1,64,128},{2,3,256},{64,128,320},{1,2,32767}; plus depth-2 programs (outer requiredness x inner 6^2); parse options 2^2 {SetOptionalBitmap, UseDefaultValue}; j2t: all 2^4 of {WriteRequireField, WriteDefaultField, WriteOptionalField, DisallowUnknownField} x every input in {absent, null, present}^3 x {no unknown member, unknown member}; t2j: same 2^4 x {absent, present}^3 x {no unknown, unknown} x 2 wire orders; cutting (generic.Value.MarshalTo between two independent parses of the program): all 2^3 of {WriteDefault, NotCheckRequireNess, DisallowUnknow} x {absent, present}^3 x unknown; environment deviations: DoInto capacities, dirty pooled bitmaps (all-ones, capacities 0..17) and dirty native bitmap cache. A case is one (side, program, parse options, options, input). Later additions: the whole table with literals equal to the zero value, unknown members with a null value, the JSON side through the portable converter (pipe server). Round 8: nested structs as elements of list / set / map / list<list>; an http twin of every t2j scenario. Round 10: required base field of a nested instance of a function's root struct (EnableThriftBase parse). Round 11: the struct as second element of a list behind a complete element."
 }
 
 func (check) Assumptions() []string {
